@@ -3693,13 +3693,13 @@ async def _helper_rename_inbox(inbox: Mailbox, new_name: str) -> None:
 
     inbox.optional_resync = False
 
-    # We need to send EXPUNGES to all the other clients
+    # NOTE: The messages are gone from the folder: `.mh_sequences` is brought
+    #       in line before anything else is awaited (telling the other clients
+    #       may take a while), so that mail delivered meanwhile -- or found
+    #       after we are killed -- does not inherit the flags of the message
+    #       whose number it gets.
     #
-    notifications = []
-    for msg_seq_num in range(len(inbox.msg_keys), 0, -1):
-        notifications.append(f"* {msg_seq_num} EXPUNGE\r\n")
-    await inbox._dispatch_or_pend_notifications(notifications)
-
+    num_expunged = len(inbox.msg_keys)
     async with inbox.mh_sequences_lock:
         inbox.sequences = defaultdict(set)
         inbox.msg_keys = []
@@ -3707,3 +3707,10 @@ async def _helper_rename_inbox(inbox: Mailbox, new_name: str) -> None:
         inbox.uids = []
         inbox.set_sequences_in_folder(inbox.sequences)
         await inbox.commit_to_db()
+
+    # We need to send EXPUNGES to all the other clients
+    #
+    notifications = []
+    for msg_seq_num in range(num_expunged, 0, -1):
+        notifications.append(f"* {msg_seq_num} EXPUNGE\r\n")
+    await inbox._dispatch_or_pend_notifications(notifications)
